@@ -76,19 +76,98 @@ def evidence_head_fact(text, desc):
         return False
     # causal test: with exactly those fact lines deleted the export agrees with the original again
     repaired = "\n".join(l for l in lines if l[:-1] not in culprits) + "\n"
+    from problog.errors import InconsistentEvidenceError
+
+    def ev(t):
+        try:
+            r = get_evaluatable("ddnnf").create_from(PrologString(t)).evaluate()
+            return dict((str(k), v) for k, v in r.items())
+        except InconsistentEvidenceError:
+            return "inconsistent"
     try:
-        a = get_evaluatable("ddnnf").create_from(PrologString(text)).evaluate()
-        b = get_evaluatable("ddnnf").create_from(PrologString(repaired)).evaluate()
+        a, b = ev(text), ev(repaired)
     except Exception:
         return False
-    a = dict((str(k), v) for k, v in a.items())
-    b = dict((str(k), v) for k, v in b.items())
+    if a == "inconsistent" or b == "inconsistent":
+        # two heads of one AD made true by the evidence: the original is inconsistent, and so is the repaired export
+        return a == b
     return set(a) == set(b) and all(abs(a[k] - b[k]) < 1e-9 for k in a)
+
+
+def propagated_atom_fact(text, desc):
+    """Same mechanism for a derived atom: with propagate_evidence an atom whose value follows from the evidence is
+    printed as a plain fact next to its own clauses, so the evidence no longer constrains what it was derived from.
+    Causal test as above: deleting exactly those fact lines restores the agreement."""
+    if not desc.get("opts", {}).get("propagate_evidence"):
+        return False
+    try:
+        exp = export(text, desc.get("break_cycles", False), desc.get("opts", {}))
+    except Exception:
+        return False
+    lines = [l.strip() for l in exp.split("\n") if l.strip()]
+    facts = set(l[:-1] for l in lines if l.endswith(".") and ":-" not in l and "::" not in l
+                and not l.startswith(("query(", "evidence(")))
+    heads = set(l.split(":-")[0].strip() for l in lines if ":-" in l and "::" not in l.split(":-")[0])
+    culprits = facts & heads
+    if not culprits:
+        return False
+    repaired = "\n".join(l for l in lines if l[:-1] not in culprits) + "\n"
+    from problog.errors import InconsistentEvidenceError
+
+    def ev(t):
+        try:
+            r = get_evaluatable("ddnnf").create_from(PrologString(t)).evaluate()
+            return dict((str(k), v) for k, v in r.items())
+        except InconsistentEvidenceError:
+            return "inconsistent"
+    try:
+        a, b = ev(text), ev(repaired)
+    except Exception:
+        return False
+    if a == "inconsistent" or b == "inconsistent":
+        return a == b
+    return set(a) == set(b) and all(abs(a[k] - b[k]) < 1e-9 for k in a)
+
+
+def violated_evidence_next_to_definition(text, desc):
+    """Evidence that contradicts a deterministic atom is exported as 'H :- fail. evidence(H).'; when H is also printed
+    with its definition (it is a query), the exported program is consistent although the original is not.
+    Causal test: the original raises InconsistentEvidenceError, the export does not, and it does again once the other
+    definitions of those H are deleted."""
+    from problog.errors import InconsistentEvidenceError
+    try:
+        get_evaluatable("ddnnf").create_from(PrologString(text)).evaluate()
+        return False
+    except InconsistentEvidenceError:
+        pass
+    except Exception:
+        return False
+    try:
+        exp = export(text, desc.get("break_cycles", False), desc.get("opts", {}))
+    except Exception:
+        return False
+    lines = [l.strip() for l in exp.split("\n") if l.strip()]
+    failing = set(l.split(":-")[0].strip() for l in lines if l.replace(" ", "").endswith(":-fail."))
+    if not failing:
+        return False
+    repaired = "\n".join(l for l in lines if not ((l[:-1] in failing) or (":-" in l and l.split(":-")[0].strip() in failing
+                                                                         and not l.replace(" ", "").endswith(":-fail.")))) + "\n"
+    try:
+        get_evaluatable("ddnnf").create_from(PrologString(repaired)).evaluate()
+        return False
+    except InconsistentEvidenceError:
+        return True
+    except Exception:
+        return False
 
 
 def classify(text, key, desc):
     if evidence_head_fact(text, desc):
         return "to_prolog:propagate-evidence:ad-head-printed-as-fact"
+    if propagated_atom_fact(text, desc):
+        return "to_prolog:propagate-evidence:derived-atom-printed-as-fact"
+    if violated_evidence_next_to_definition(text, desc):
+        return "to_prolog:violated-evidence-exported-as-failing-clause-next-to-the-definition"
     return None
 
 
